@@ -1,6 +1,6 @@
 (* Dispatch of driver requests to the per-property executable models. *)
 From Coq Require Import List String.
-From PC Require Import Base.Sexp Run.RC11 Run.RC07 Run.RComp Run.RC08.
+From PC Require Import Base.Sexp Run.RC11 Run.RC07 Run.RComp Run.RC08 Run.RDesign.
 Import ListNotations.
 Local Open Scope string_scope.
 
@@ -11,6 +11,7 @@ Definition run (req : sexp) : sexp :=
   | Li [At "C07"; x] => run_C07 x
   | Li [At "comp"; x] => run_comp x
   | Li [At "wfpil"; x] => run_wfpil x
+  | Li [At "design"; x] => run_design x
   | Li [At "C08"; x] => run_C08 x
   | _ => bad_request
   end.
